@@ -285,17 +285,27 @@ func genC04(tier string, seed uint64, run int) *Scenario {
 	}
 	p := map[string]interface{}{"proto": proto}
 	nodes := fillProtoParams(r, tier, proto, p)
+	mode := run % 3
 	if proto == "ec-reshare" {
-		// proofs enabled in two of three ECDSA runs (the production path)
-		p["noproofs"] = (run/ecEvery)%3 == 2
+		// run%ecEvery and run%3 are not independent (quick: every ECDSA run would get the same mode):
+		// ECDSA runs cycle through the modes by their own ordinal
+		k := run / ecEvery
+		mode = k % 3
+		// proofs enabled in three of four ECDSA runs (the production path)
+		p["noproofs"] = k%4 == 3
 		p["signsubsets"] = 1
+		if k%8 == 0 {
+			// a new committee with a threshold above 2 (powers beyond the square in the share-point evaluation)
+			p["newn"], p["newt"] = 4, 3
+			nodes = 3 + 4
+		}
 	} else {
 		p["signsubsets"] = 4
 		p["undersized"] = true
 	}
 	sc := &Scenario{Check: "C04", Kind: "reshare", Seed: seed, Run: run, P: p}
 	sc.Sched = GenSched(r, nodes, true, false)
-	switch run % 3 {
+	switch mode {
 	case 0:
 		p["mode"] = "complete"
 	case 1:
